@@ -40,7 +40,11 @@ func (n *MixedValueNode) AddConstraint(c constraint.Constraint) {
 	switch t := c.(type) {
 	case *constraint.TypeConstraint:
 		n.addTypeConstraint(t)
-		n.types = []string{t.Bytes().String()}
+		// `type: "mixed"` names no type: the types of the node are the ones its
+		// `or` list (or the `@a | @b` written as its value) names.
+		if t.Bytes().Unquote().String() != "mixed" || len(n.types) == 0 {
+			n.types = []string{t.Bytes().String()}
+		}
 
 	case *constraint.Or:
 		n.addOrConstraint(t)
